@@ -28,6 +28,9 @@ class Part:
     def describe(self, inp):
         return inp
 
+    def describe_obs(self, obs):
+        return obs
+
 
 def load_known():
     p = os.path.join(C.VERIF, "known_findings.json")
@@ -37,14 +40,24 @@ def load_known():
 
 
 def eval_part(part, binary, inputs, work, tag):
-    """run inputs through implementation and model; returns dict"""
+    """run inputs through implementation and model; returns dict.  One input
+    may expand to several Coq cases (to_coq returning a list); failures are
+    reported per input."""
     if not inputs:
-        return dict(obs=[], corr=[], oracle=[], known=[], branches=[])
+        return dict(obs=[], corr=[], oracle=[], known=[], branches=[], terms=0)
     runner = C.run_harness_parallel if part.parallel else C.run_harness
     obs = runner(binary, part.family, [i["input"] for i in inputs], args=part.harness_args)
-    terms = [part.to_coq(i["input"], o) for i, o in zip(inputs, obs)]
+    terms, owner = [], []
+    for idx, (i, o) in enumerate(zip(inputs, obs)):
+        ts = part.to_coq(i["input"], o)
+        if isinstance(ts, str):
+            ts = [ts]
+        for t in ts:
+            terms.append(t)
+            owner.append(idx)
     reports, shard = C.run_cases_in_coq(part.exec_module, terms, work, tag, shard=part.shard)
-    corr, oracle, known, branches = [], [], [], []
+    corr, oracle, known = [], [], []
+    branches = [[] for _ in inputs]
     for k, rep in enumerate(reports):
         base = k * shard
         if len(rep) == 3:
@@ -52,11 +65,21 @@ def eval_part(part, binary, inputs, work, tag):
             kn = []
         else:
             cf, of, kn, br = rep
-        corr += [base + i for i in cf]
-        oracle += [base + i for i in of]
-        known += [(base + i, cls) for (i, cls) in kn]
-        branches += br
-    return dict(obs=obs, corr=corr, oracle=oracle, known=known, branches=branches)
+        for i in cf:
+            if owner[base + i] not in corr:
+                corr.append(owner[base + i])
+        for i in of:
+            if owner[base + i] not in oracle:
+                oracle.append(owner[base + i])
+        for (i, cls) in kn:
+            if (owner[base + i], cls) not in known:
+                known.append((owner[base + i], cls))
+        for i, b in enumerate(br):
+            o = owner[base + i]
+            for x in b:
+                if x not in branches[o]:
+                    branches[o].append(x)
+    return dict(obs=obs, corr=corr, oracle=oracle, known=known, branches=branches, terms=len(terms))
 
 
 def shrink_failure(part, binary, inp, work, kind, rounds=12):
@@ -146,12 +169,18 @@ def run_property(pid, tier, seed):
             classes = {}
             for i in inputs:
                 classes[i.get("class", "-")] = classes.get(i.get("class", "-"), 0) + 1
-            cov["parts"][part.name] = dict(cases=len(inputs), classes=classes,
+            cov["parts"][part.name] = dict(cases=len(inputs), coq_cases=ev["terms"], classes=classes,
                                            corr_failures=len(ev["corr"]), oracle_failures=len(ev["oracle"]))
+            if hasattr(part, "extra_coverage"):
+                extra = part.extra_coverage(inputs, ev["obs"])
+                cov["parts"][part.name].update(extra)
+                for k in ("states", "transitions", "schedules_enumerated", "traces_validated_against_impl"):
+                    if k in extra:
+                        cov[k] = cov.get(k, 0) + extra[k]
             for i in (0, len(inputs) // 2, len(inputs) - 1):
                 if inputs:
                     cov["samples"].append({"part": part.name, "input": part.describe(inputs[i]["input"]),
-                                           "observation": ev["obs"][i]})
+                                           "observation": part.describe_obs(ev["obs"][i])})
             # known findings: oracle fails inside a listed class and the faithful model agrees
             known_idx = set()
             for (i, cls) in ev["known"]:
@@ -169,7 +198,7 @@ def run_property(pid, tier, seed):
                 path = write_replay(pid, seed, nrep, dict(
                     property=pid, part=part.name, kind="oracle",
                     what="the property's predicate is false on what the implementation did",
-                    input=small, observation=ev1["obs"][0], original_input=inputs[i]["input"],
+                    input=small, observation=part.describe_obs(ev1["obs"][0]), original_input=inputs[i]["input"],
                     model_agrees=(not ev1["corr"])))
                 violations.append((path, False))
             if not real and ev["corr"]:
